@@ -149,8 +149,12 @@ func c04SockRun(srv *svc.Server, cid int, seed uint64, streamNo int, mode string
 	}
 	t.Write(t.Frame(0x0002, 9, nil))
 	for {
-		rx, ok, to := t.Next(60 * time.Second)
+		rx, ok, to := t.Next(45 * time.Second)
 		if to {
+			if serverAnswersFreshConnection(srv.Addr) {
+				bad("stream|an owed reply never came although the server answers fresh connections at once", fmt.Sprintf("stream %d mode %s", streamNo, mode))
+				return viol, false, n, map[string]any{"stream": streamNo, "mode": mode, "frames": n}
+			}
 			return viol, true, n, nil
 		}
 		if !ok {
